@@ -254,6 +254,52 @@ def run_incremental(r, idx):
         r["samples"].append(wit)
 
 
+DEEP = [("free1500", 1500, 1, "none"), ("ne_on_first_30_of_1100_dom3", 1100, 2, "ne"), ("free1100_dom4_with_one_pair", 1100, 3, "pair")]
+
+
+def _deep_chunk(params, lo, hi):
+    """models with more decision variables than the interpreter's recursion limit has frames; satisfiability and the
+    constraints are checked directly (every model is satisfiable by construction): index = model*3 + solver"""
+    from solvor.cp import Model
+    from solvor.types import Status
+
+    r = new_result()
+    for idx in range(lo, hi):
+        name, n, ub, kind = DEEP[idx // 3]
+        solver = ("dfs", "auto", "sat")[idx % 3]
+        wit = {"deep": name, "solver": solver}
+        m = Model()
+        xs = [m.int_var(0, ub, f"x{i}") for i in range(n)]
+        if kind == "ne":
+            for a, b in zip(xs[:30], xs[1:30]):
+                m.add(a != b)
+        elif kind == "pair":
+            m.add(xs[0] + xs[n - 1] == 6)
+        r["n"] += 1
+        r["nontrivial"] += 1
+        try:
+            res = gcall(lambda: m.solve(solver=solver), 120.0, 1_500_000_000)
+        except Exception as ex:  # noqa: BLE001
+            r["outcomes"]["deep:raised"] += 1
+            r["violations"].append(viol("Model.solve", "raised" if not isinstance(ex, SolverHang) else "nontermination", wit, f"Model.solve(solver={solver!r}) on {name} ({n} variables): {type(ex).__name__}: {str(ex)[:120]}"))
+            continue
+        r["outcomes"][f"deep:{res.status.name}"] += 1
+        msg = None
+        if res.status != Status.OPTIMAL or res.solution is None:
+            msg = f"status {res.status.name} although the model is satisfiable"
+        else:
+            v = [res.solution.get(f"x{i}") for i in range(n)]
+            if any(x is None or not (0 <= x <= ub) for x in v):
+                msg = "a variable is missing or outside its domain"
+            elif kind == "ne" and any(a == b for a, b in zip(v[:30], v[1:30])):
+                msg = "two neighbours of the chain are equal"
+            elif kind == "pair" and v[0] + v[n - 1] != 6:
+                msg = "x[0] + x[n-1] == 6 is broken"
+        if msg:
+            r["violations"].append(viol("Model.solve", "wrong_infeasible" if "status" in msg else "constraint_broken", wit, f"Model.solve(solver={solver!r}) on {name} ({n} variables): {msg}"))
+    return r
+
+
 N_INC = len(INC_A) * len(INC_B) * 3 * 2 * 3 * 2
 
 
@@ -329,12 +375,17 @@ def jobs(tier, seed):
             lo, hi = size * b // nb, size * (b + 1) // nb
             label = f"{name}_block{b}of{nb}"
         js.append(Job(label, hi - lo, _chunk, (name, full_mod, lo), describe=f"model space '{name}' ({size} models); every {full_mod}-th model gets the full solver/limit/hint menu, the others solver x limit in {{1,10^6}}"))
+    js.append(Job("deep_models", len(DEEP) * 3, _deep_chunk, None, chunk=1, describe="1500 unconstrained 0/1 variables, 1100 variables over 0..2 with x[i] != x[i+1] on the first 30, 1100 variables over 0..3 with x[0] + x[1099] == 6: more decision levels than the interpreter's recursion limit; dfs, auto and sat"))
     js.append(Job("incremental_resolve", N_INC, _inc_chunk, None, describe="histories of one Model object: build, solve, add a variable and constraints, solve again (8 first parts x 8 second parts x 3 domains x solver pairs x limits)"))
     return js
 
 
 def replay(v):
     w = v["witness"]
+    if w.get("deep"):
+        i = [d[0] for d in DEEP].index(w["deep"]) * 3 + ("dfs", "auto", "sat").index(w["solver"])
+        r = _deep_chunk(None, i, i + 1)
+        return r["violations"][0] if r["violations"] else None
     if w.get("incremental"):
         r = new_result()
         for idx in range(N_INC):
